@@ -128,6 +128,22 @@ const entryplus3Baggage uint64 = 8 + // fileid
 	16 + // name_handle
 	8 // pointer
 
+// A cookie is the offset of the slot after the entry it was returned with
+// (so that 0 can mean "from the beginning").  Map any cookie value to the
+// offset of a slot.
+func startOffset(dip *inode.Inode, cookie uint64) uint64 {
+	var begin = cookie
+	if begin > dip.Size {
+		begin = dip.Size
+	}
+	return util.RoundUp(begin, DIRENTSZ) * DIRENTSZ
+}
+
+// NextCookie returns the cookie for the entry at offset off.
+func NextCookie(off uint64) uint64 {
+	return off + DIRENTSZ
+}
+
 // Children with a smaller inode number than the directory cannot be locked
 // without violating the lock order (ascending inum); for those f is called
 // with a nil inode.
@@ -136,10 +152,7 @@ func Apply(dip *inode.Inode, op *fstxn.FsTxn, start uint64,
 	f func(*inode.Inode, string, common.Inum, uint64)) bool {
 	var eof bool = true
 	var ip *inode.Inode
-	var begin = uint64(start)
-	if begin != 0 {
-		begin += DIRENTSZ
-	}
+	var begin = startOffset(dip, start)
 	// TODO: arbitrary estimate of constant XDR overhead
 	var n uint64 = uint64(64)
 	var dirbytes uint64 = uint64(0)
@@ -187,10 +200,7 @@ func Apply(dip *inode.Inode, op *fstxn.FsTxn, start uint64,
 func ApplyEnts(dip *inode.Inode, op *fstxn.FsTxn, start uint64, count uint64,
 	f func(string, common.Inum, uint64)) bool {
 	var eof bool = true
-	var begin = uint64(start)
-	if begin != 0 {
-		begin += DIRENTSZ
-	}
+	var begin = startOffset(dip, start)
 	// TODO: this is supposed to track the size of the XDR-encoded reply in
 	// bytes, and we somewhat arbitrarily use 64 as the constant overhead
 	var n uint64 = uint64(64)
